@@ -441,7 +441,7 @@ func parseContractFile(pkg, path string) (*ContractFile, error) {
 			} else {
 				cur.Attrs[word] = strings.Join(items, ",")
 			}
-		case "trusted", "inline", "pure", "atomic", "constructor", "nopanic", "holds", "noframe", "unfold", "callback", "bind", "yields", "assume_entry", "thread", "asm", "property":
+		case "trusted", "inline", "pure", "atomic", "constructor", "nopanic", "holds", "noframe", "unfold", "callback", "bind", "yields", "assume_entry", "thread", "asm", "property", "paths":
 			if cur == nil {
 				return nil, errf("%s outside func", word)
 			}
